@@ -1,5 +1,6 @@
 import PhononModel.Lemmas.SymmetrizeCompact
 import PhononModel.Lemmas.SymmetrizeTables
+import PhononModel.Lemmas.SymmetrizeEquivariance
 import PhononModel.Lemmas.GroupAverage
 import PhononModel.Lemmas.SymmetrizeLoop
 import Mathlib.Tactic.FinCases
@@ -260,6 +261,29 @@ example : transGroupCert p2sEx s2pEx permsEx = true := by decide +kernel
 example : transGroupCert p2sEx s2pEx permsBad = false := by decide +kernel
 example : (mkTables (by omega) (by omega) p2sEx s2pEx permsEx).nsym 3 = 1 := by decide +kernel
 
+/-- a two-atom array with a single non-zero entry (for the non-vacuity examples) -/
+def Φpin2 : FC 2 ℚ := fun i j k l => if i = 0 ∧ j = 1 ∧ k = 0 ∧ l = 1 then 1 else 0
+/-! ### description invariance -/
+
+/-- The full-layout symmetriser commutes with every relabelling of the atoms (every level): symmetrising the
+relabelled array gives the relabelled symmetrised array. -/
+theorem fullSym_relabel_invariant {n : Nat} (σ : Fin n ≃ Fin n) (L : Nat) (Φ : FC n K) :
+    fullSym L (relabel σ Φ) = relabel σ (fullSym L Φ) :=
+  fullSym_relabel σ L Φ
+
+/-- ... and with every change of the Cartesian frame `Φ(i,j) ↦ C Φ(i,j) Cᵀ` (`C` any 3×3 matrix, not necessarily
+orthogonal or right-handed): the result does not depend on the axes the force constants are expressed in. -/
+theorem fullSym_frame_invariant {n : Nat} (C : Fin 3 → Fin 3 → K) (L : Nat) (Φ : FC n K) :
+    fullSym L (congr3 C Φ) = congr3 C (fullSym L Φ) :=
+  fullSym_congr3 C L Φ
+
+/-- non-vacuity: a relabelling and a frame change that actually move a concrete array -/
+example : relabel (Equiv.swap (0 : Fin 2) 1) Φpin2 ≠ Φpin2 := by
+  intro h
+  have := congrFun (congrFun (congrFun (congrFun h 0) 1) 0) 1
+  revert this
+  decide +kernel
+
 /-- F2 in the model: the loop as it was before the repair leaves a self-paired block
 untransposed — on the two-atom table set above the statement `transposeLoop_eq` is false for it. -/
 def Φpin : CFC 1 2 ℚ := fun _ j k l => if j = 1 ∧ k = 0 ∧ l = 1 then 1 else 0
@@ -307,3 +331,5 @@ end PhononModel.C07
 #print axioms PhononModel.C07.computed_tables_wf
 #print axioms PhononModel.C07.compact_eq_full_computed_tables
 #print axioms PhononModel.C07.nsym_choice_immaterial
+#print axioms PhononModel.C07.fullSym_relabel_invariant
+#print axioms PhononModel.C07.fullSym_frame_invariant
